@@ -8,6 +8,21 @@ VERIF = os.path.dirname(os.path.dirname(os.path.abspath(__file__)))
 ALL = [f"C{i:02d}" for i in range(1, 21)]
 
 CHECKS = {
+    "C05": dict(
+        category="exploration",
+        technique="bounded-exhaustive enumeration of generated multi-file workspaces with a reference resolver on the model and a source map; every use site queried",
+        text=("Exhaustive enumeration of generated workspaces in four families: shadowing (every combination of local / dummy "
+              "/ result / ASSOCIATE declarations of one name at four nesting levels of a module or program), USE graphs (2 and "
+              "3 modules declaring x as {no, plain, private} with default accessibility {public, private, private + public :: "
+              "x}, edges {none, use, only: x, only: y => x, only: z} between modules and from two kinds of using scope), type "
+              "chains (EXTENDS length 1-3, type/class objects, scalar, array-element and nested-component access, inside and "
+              "outside the module) and INCLUDE (three levels, nested). A reference resolver on the model admits a workspace "
+              "only if every use site has exactly one accessible declaration; textDocument/definition at every use site must "
+              "return that declaration's file and identifier range."),
+        note=("Trusted: the reference resolver resolve_modules() in vf/checks/c05.py (a violating workspace that gfortran "
+              "rejects aborts the check as broken). Cyclic USE graphs and more than 3 modules are not generated."),
+        design="DESIGN.md §4 C05",
+    ),
     "C04": dict(
         category="exploration",
         technique="bounded-exhaustive enumeration of structure trees x END forms x spacing styles against the renderer's source map; all substring queries for workspace/symbol",
